@@ -16,6 +16,10 @@ SPEC = {
             "canonical well-formed strings must decode to Python's value, non-canonical trailing bits are unconstrained. "
             "rot13: all 0..2-byte strings + random. escape_url (2 modes), escape_controls (2 modes), escape_quotes: all 0..2-byte "
             "strings + 10k/100k random each. netloc: every port 0..65535 x 16 (quick) / 110 (thorough) colon-free hosts. "
+            "Concurrency stages (4 asan + 2 tsan processes): ~380 records per process (encode/decode both alphabets incl. corrupted "
+            "encodings, rot13, escape_url x2, escape_controls x2, escape_quotes with inputs whose every byte needs a different escape, "
+            "netloc 48-port ranges); one single-threaded pass is logged and judged as above, then 8 threads (barrier start) repeat "
+            "their own records for 60/300 (asan) or 4/25 (tsan) rounds and every result must be byte-identical to that pass. "
             "distinct_nontrivial = distinct (function, alphabet/mode, input shape, outcome / malformation reason) classes.",
     "level_text": "Strictness and inverse-ness are decided on completely enumerated small scopes (all short byte strings; all 4- and "
                   "8-character strings over a reduced alphabet that contains valid, padding, cross-alphabet, invalid, NUL and high "
@@ -24,6 +28,10 @@ SPEC = {
                   "outside the reduced alphabets at a specific position of a long string could be missed.",
     "stages": [
         {"kind": "py", "name": "c11", "tag": "c11", "func": "c11:stage"},
+        # concurrency: 8 threads per process repeat their own records at the same time; results must equal the judged
+        # single-threaded pass (asan build), and ThreadSanitizer watches a shorter run of the same thing
+        {"kind": "py", "name": "c11-mt", "tag": "c11-mt", "func": "c11:stage_mt", "variant": "asan", "class_prefix": "mt:"},
+        {"kind": "py", "name": "c11-mt-tsan", "tag": "c11-mt-tsan", "func": "c11:stage_mt", "variant": "tsan", "class_prefix": "tsan:"},
     ],
     "min_evaluations": 1000000,
     "min_classes": {"quick": 120, "thorough": 120},
@@ -42,6 +50,11 @@ SPEC = {
         "escape_url:keep-slash:escaped:*", "escape_url:escape-slash:escaped:*", "escape_url:keep-slash:verbatim:*",
         "escape_controls:ascii:escaped:*", "escape_controls:utf8:escaped:*", "escape_controls:utf8:verbatim:*",
         "escape_quotes:escaped:*", "escape_quotes:verbatim:*",
+        "mt:concurrent:8threads:base64_encode:*", "mt:concurrent:8threads:base64_decode:flag1:*", "mt:concurrent:8threads:rot13:*",
+        "mt:concurrent:8threads:escape_url:flag1:*", "mt:concurrent:8threads:escape_controls:flag0:*",
+        "mt:concurrent:8threads:escape_controls:flag1:*", "mt:concurrent:8threads:escape_quotes:*", "mt:concurrent:8threads:netloc:*",
+        "tsan:concurrent:8threads:escape_controls:*", "tsan:concurrent:8threads:escape_quotes:*", "tsan:concurrent:8threads:base64_decode:*",
+        "tsan:concurrent:8threads:netloc:*",
         "netloc:host-1char*", "netloc:host-255+*", "netloc:*highbytes*", "netloc:*:ports-from0", "netloc:*:ports-to65535",
     ],
     "exhaustive": {"quick": False, "thorough": False},
@@ -53,6 +66,8 @@ SPEC = {
         "at the start of every run)",
         "'padding only in the last one or two positions' is read as: the set of '=' positions is empty, {n-1} or {n-2,n-1}; "
         "well-formed strings with non-zero discarded bits (e.g. \"QR==\") are neither required to decode nor to throw",
+        "concurrency: the functions are pure functions of their arguments; schedules are those the OS produced for 8 free-running "
+        "threads per process; TSan reports races on the executions it saw",
         "permitted characters: escape_url -> [A-Za-z0-9-_.~=&] ('/' too unless escape_slash) and %HH; escape_controls -> 0x20..0x7E "
         "(plus >=0x80 when escape_non_ascii is false) with quote, apostrophe, backslash only inside \\-escapes; escape_quotes -> "
         "0x20..0x7E with every '\"' directly preceded by a backslash",
